@@ -194,7 +194,7 @@ def gen_case(rng, pid, tier):
                     ops.append(['refinish', i])
             elif x < 0.35:
                 # a fault inside the clean-up (an `ipset` / unlink call fails), possibly twice, before the retry
-                ops.append(['cutfinish', i, rng.choice(['dns', 'late'] + [rng.randrange(0, 14)] * 4)])
+                ops.append(['cutfinish', i, rng.choice(['dns', 'late', 'vanish'] + [rng.randrange(0, 14)] * 4)])
                 if rng.random() < 0.3:
                     ops.append(['cutfinish', i, rng.choice(['dns'] + [rng.randrange(0, 14)] * 4)])
             elif x < 0.42 and conts[i]['mode'] == 'direct':
@@ -453,7 +453,25 @@ def _run_impl(case, root):
 
         def unlink_all(self, *a, **kw):
             env.removal()
-            return super(_CutEndpoints, self).unlink_all(*a, **kw)
+            if not getattr(env, 'vanish', False):
+                return super(_CutEndpoints, self).unlink_all(*a, **kw)
+            # one of the listed specs is gone by the time it is looked at (reclaimed by the collector, or removed by
+            # the finish of another container of the same instance): the sweep goes on with the others
+            env.vanish = False
+            real_glob = tm_endpoints.glob.glob
+
+            owner = kw.get('owner', a[3] if len(a) > 3 else None)
+
+            def glob_then_vanish(pattern):
+                found = real_glob(pattern)
+                # (one of the container's OWN specs: what belongs to others must stay)
+                mine = [f for f in found if owner and os.path.basename(os.readlink(f)) == owner]
+                if mine:
+                    os.unlink(mine[0])
+                    run.tags.add('spec-vanished-during-sweep')
+                return found
+            with mock.patch.object(tm_endpoints.glob, 'glob', glob_then_vanish):
+                return super(_CutEndpoints, self).unlink_all(*a, **kw)
     tm_env.endpoints = _CutEndpoints(eps_dir)
     netclient = _NetClient(env, ext)
     tm_env.svc_network.make_client.return_value = netclient
@@ -700,6 +718,10 @@ def _run_impl(case, root):
         env.rule_log = []
         env.net_get = []
         env.keep_alloc = keep
+        if cut == 'vanish':
+            # for the network this is a complete finish: every spec of the container is gone at the end
+            cut = None
+            env.vanish = True
         late = cut == 'late'
         if late:
             # a LATER step of the finish fails (the cgroup cannot be released yet: EBUSY): by then the network part
@@ -732,6 +754,7 @@ def _run_impl(case, root):
             env.cut = None
             env.dns_fail = False
             tm_env.svc_cgroup.make_client.return_value.delete.side_effect = None
+            env.vanish = False
         if late and raised == 'OSError:%d' % errno.EBUSY:
             raised = None               # the injected failure itself
         after = snapshot()
